@@ -135,6 +135,12 @@ func TestVerifC01(t *testing.T) {
 			v2 = append(v2, hdOp{K: "hello", C: 1, B: 4, U: 1, V2: &hdV2Tok{Alg: 0, Signer: 1, Iat: ip(-10), Exp: ip(300)}}, // unconfigured URL
 				hdOp{K: "hello", C: 1, B: 2, U: 1, V2: &hdV2Tok{Alg: 6, Signer: 3, Iat: ip(-10), Exp: ip(300)}}, hdJoinOp(1, 1, 1))
 			out = append(out, &hdCase{Id: len(out), Mode: 1, Backends: []hdBackendCfg{{}, {}, {}, {}}, Ops: v2})
+			// a server without an internal secret: no internal client can log in, whatever token it computes
+			// (in particular not the one keyed with the empty string); ordinary clients are unaffected
+			out = append(out, &hdCase{Id: len(out), Mode: 1, Backends: []hdBackendCfg{{NoInternalSecret: true}, {}}, Ops: []hdOp{
+				{K: "connect", C: 1, Addr: 1}, {K: "hello", C: 1, Ht: "internal", B: 0}, {K: "hello", C: 1, Ht: "internal", B: 1, Feat: []string{ClientFeatureInternalInCall}},
+				{K: "hello", C: 1, Ht: "internal", B: 0, Tok: 2}, {K: "hello", C: 1, Ht: "internal", B: 3}, hdJoinOp(1, 1, 0),
+				{K: "hello", C: 1, B: 0, U: 1}, hdJoinOp(1, 1, 1), {K: "connect", C: 2, Addr: 1}, {K: "hello", C: 2, Ht: "internal", B: 0}}})
 			return out
 		}})
 }
